@@ -83,7 +83,8 @@ func (w *siteWalker) schema(path, where, via string, depth int, s *spec.Schema) 
 			w.schema(path+".items."+w.kind, where, "items", depth+1, s.Items.Schema)
 		}
 		for i := range s.Items.Schemas {
-			w.schema(fmt.Sprintf("%s.items[%d].%s", path, i, w.kind), where, "tuple items", depth+1, &s.Items.Schemas[i])
+			sch := s.Items.Schemas[i] // the walkers range by value: the member is judged through a copy
+			w.schema(fmt.Sprintf("%s.items[%d].%s", path, i, w.kind), where, "tuple items", depth+1, &sch)
 		}
 	}
 	if s.AdditionalItems != nil && s.AdditionalItems.Schema != nil {
@@ -101,7 +102,8 @@ func (w *siteWalker) schema(path, where, via string, depth int, s *spec.Schema) 
 		w.schema(path+".additionalProperties", where, "additionalProperties", depth+1, s.AdditionalProperties.Schema)
 	}
 	for i := range s.AllOf {
-		w.schema(fmt.Sprintf("%s.allOf[%d]", path, i), where, "allOf", depth+1, &s.AllOf[i])
+		ao := s.AllOf[i] // by value, as the walkers do
+		w.schema(fmt.Sprintf("%s.allOf[%d]", path, i), where, "allOf", depth+1, &ao)
 	}
 	w.nodes[idx].Size = len(w.nodes) - idx - 1
 }
